@@ -221,6 +221,21 @@ CLAIMED.update({
             "DESIGN.md §3 C17"),
 })
 
+CLAIMED.update({
+    "C20": ("Claimed part only - mutual format compatibility and data agreement: the real GemHostHandler API (request_svs, list_svs, "
+            "request_ecs, list_ecs, set_ec, list_alarms, list_enabled_alarms, enable/disable_alarm, go_online/offline, are_you_there, "
+            "subscribe/clear_collection_events, send_remote_command) runs against a real GemEquipmentHandler over a loopback that "
+            "carries the ENCODED bytes of every request and reply in both directions; with symbolic variable / constant values (full "
+            "width) the host-side results must equal what the equipment holds, set_ec is applied iff in range, and every collection "
+            "event triggered while enabled reaches the host's collection_event_received exactly once with the linked values (none "
+            "after clearing, again after re-subscribing).",
+            "NOT claimed (stated, no encoding within reach): reaching COMMUNICATING for all startup orders, roles, latencies and "
+            "segmentations, and recovery after disable/enable - whole-program properties of >= 8 threads, timers and sockets; their "
+            "sequential pieces are C05/C07/C09. Trusted: CrossHair + chx; both handlers constructed in COMMUNICATING state; synchronous "
+            "loopback; inline sender thread.",
+            "DESIGN.md §3 C20"),
+})
+
 NOT_APPLICABLE = {
 }
 
